@@ -461,3 +461,5 @@ def check(run, prog):
     rule_language(run, prog)
     rule_machine(run, prog)
     rule_isolation(run, prog)
+    from .c08_container import rule_container_keeps_all
+    rule_container_keeps_all(run, prog, "R-13.5")
